@@ -311,7 +311,7 @@ def split_functions(text, rel):
     return fns
 
 
-def kernel_inventory(repo, flags):
+def kernel_inventory(repo, flags, strict=True, errors=None):
     inv = {}
     for rel in X86_FILES:
         text = preprocess(repo, rel, flags[rel])
@@ -330,10 +330,13 @@ def kernel_inventory(repo, flags):
                         todo.append(c)
             unknown = sorted(i for i in acc if i not in INTRINSIC_FEATURE)
             if unknown:
-                raise TieError("%s: %s uses intrinsics with no modelled ISA requirement / semantics: %s"
-                               % (rel, n, ", ".join(unknown)))
-            inv[n] = {"file": rel, "intrinsics": sorted(acc), "static": not n.startswith("carquet_"),
-                      "features": sorted({INTRINSIC_FEATURE[i] for i in acc}, key=FEATURES.index)}
+                msg = ("%s: %s uses intrinsics with no modelled ISA requirement / semantics: %s"
+                       % (rel, n, ", ".join(unknown)))
+                if strict:
+                    raise TieError(msg)
+                errors.append(msg)
+            inv[n] = {"file": rel, "intrinsics": sorted(acc), "static": not n.startswith("carquet_"), "unknown": unknown,
+                      "features": sorted({INTRINSIC_FEATURE[i] for i in acc if i in INTRINSIC_FEATURE}, key=FEATURES.index)}
     return inv
 
 
@@ -364,8 +367,11 @@ def coq_list(items, per_line=4, indent="  "):
     return "[" + (";\n" + indent + " ").join(rows) + "]"
 
 
-def analyse(repo):
+def analyse(repo, strict=True):
+    """strict=False (used by the check only to keep searching for a failing input after the tie broke): unknown intrinsics are
+    recorded in result['errors'] instead of raising."""
     repo = Path(repo)
+    errors = []
     for rel in ["src/simd/dispatch.c", "src/simd/detect.c", "include/carquet/carquet.h", "CMakeLists.txt"] + X86_FILES:
         if not (repo / rel).exists():
             raise TieError("%s is gone" % rel)
@@ -376,13 +382,13 @@ def analyse(repo):
             if f not in detected:
                 raise TieError("dispatch.c: block keyed on has_%s, which is not an x86 field of carquet_cpu_info_t" % f)
     flags = cmake_flags((repo / "CMakeLists.txt").read_text())
-    inv = kernel_inventory(repo, flags)
+    inv = kernel_inventory(repo, flags, strict, errors)
     for _, asg in d["blocks"]:
         for s, k in asg:
             if k not in inv:
                 raise TieError("dispatch.c assigns %s = %s, which is not defined in src/simd/x86/*.c" % (s, k))
     note = check_table_against_headers()
-    return {"dispatch": d, "detected": detected, "flags": flags, "inventory": inv, "headers": note}
+    return {"dispatch": d, "detected": detected, "flags": flags, "inventory": inv, "headers": note, "errors": errors}
 
 
 def generate(repo, outdir):
